@@ -67,7 +67,12 @@ Lemma wf_step sh w l s w' : WF w -> wire_stmt sh w l s = Ok w' -> WF w'.
 Proof.
   intros F Hw. destruct s as [d ins| |h l' p|a b]; cbn [wire_stmt] in Hw.
   - unfold wire_node in Hw.
-    destruct (resolve_inputs (w_env w) (w_phs w) ins) as [rins|] eqn:R; [|discriminate].
+    destruct (resolve_inputs (w_env w) (w_phs w) ins) as [rins0|] eqn:R; [|discriminate].
+    cbv zeta in Hw. set (rins := eff_inputs d rins0) in *.
+    assert (Hpe : inputs_peers rins = inputs_peers rins0).
+    { unfold rins, eff_inputs. destruct (nd_uniq d); auto. unfold inputs_peers.
+      clear. induction rins0 as [|x r IH]; simpl; auto. rewrite IH. reflexivity. }
+    destruct (all_passive rins); [discriminate|].
     destruct (if sh && interns d then tab_find (make_key d rins) (w_tab w) else None) as [i|] eqn:T.
     + injection Hw as <-.
       assert (Hi : i < length (w_insts w)).
@@ -89,7 +94,7 @@ Proof.
         -- rewrite nth_error_app1 in Hn by exact Hlt. pose proof (wf_ins _ F i0 it Hn n Hin). lia.
         -- rewrite nth_error_app2 in Hn by exact Hge.
            destruct (i0 - length (w_insts w)) as [|j]; simpl in Hn; [|destruct j; discriminate].
-           injection Hn as <-. simpl in Hin.
+           injection Hn as <-. simpl in Hin. rewrite Hpe in Hin.
            destruct (resolve_inputs_peers _ _ _ _ R n Hin) as (l1 & Hl1).
            pose proof (wf_env _ F l1 n Hl1). lia.
       * intros h i0 q H. pose proof (wf_binds _ F h i0 q H). lia.
